@@ -420,6 +420,14 @@ def binop(interp, op, a, b, st, node):
             if kdim.known():
                 none = const(None)
                 term = T("matmul", a.term.args[1], T("getitem", b.term, T("slice", none, dim_term(kdim), none)))
+    if name == "matmul" and isinstance(b.term, Term) and b.term.op == "stack" and len(b.term.args) == 3 and b.term.args[0] == const(0) and isinstance(b.term.args[2], Term) and b.term.args[2].op == "zeros" and sb is not None and len(sb) == 2 and sa is not None and len(sa) == 2:
+        # C @ [A ; 0] = C[:, :k] @ A   (the mirrored block product: zero rows below A)
+        k_t = b.term.args[2].args[0] if len(b.term.args[2].args) == 2 else None
+        if k_t is not None:
+            kdim = sb[0] - (k_t.args[0] if k_t.op == "dim" else Dim(int(k_t.args[0])) if k_t.op == "const" else Dim.unknown("k"))
+            if kdim.known():
+                none = const(None)
+                term = T("matmul", T("getitem", a.term, T("tuple", T("slice", none, none, none), T("slice", none, dim_term(kdim), none))), b.term.args[1])
     if name == "matmul" and sa is not None and sb is not None and len(sa) == 1 and len(sb) == 1:
         # dot product of two vectors = sum of the elementwise product
         term = T("sum", T("mul", a.term, b.term))
